@@ -73,7 +73,7 @@ Proof.
 Qed.
 
 Lemma find_name_created s n t s' id :
-  create_mailbox_row s n t = Some (s', id) -> find_name s' n = Some (mkMbox id n t 1).
+  create_mailbox_row s n t = Some (s', id) -> find_name s' n = Some (mkMbox id n (next_validity s t) 1).
 Proof.
   intros C. destruct (create_row_shape _ _ _ _ _ C) as (Fn & _ & ->).
   unfold find_name in *. simpl. clear C. revert Fn. induction (mboxes s) as [|x l IH]; simpl.
@@ -86,7 +86,7 @@ Lemma deliver_store_eq u target p t :
   match (match find_name (us u) target with
          | Some m => Some (us u, m)
          | None => match create_mailbox_row (us u) target t with
-                   | Some (s', id) => Some (s', mkMbox id target t 1)
+                   | Some (s', id) => Some (s', mkMbox id target (next_validity (us u) t) 1)
                    | None => None
                    end
          end) with
@@ -127,7 +127,7 @@ Proof.
       assert (En : next_msg s' = next_msg (us u)) by (rewrite Es'; reflexivity).
       destruct (parts_of (p_shape p)) as [np|] eqn:Pp.
       * intros T. assert (B1 : forall r, In r (umsgs u) -> m_id r < next_msg s') by (rewrite En; exact B).
-        change id with (mb_id (mkMbox id target t 1)) in T.
+        change id with (mb_id (mkMbox id target (next_validity (us u) t) 1)) in T.
         destruct (tail_spec _ _ _ _ _ _ _ _ Fn' B1 T) as (B' & Hf & Ht).
         split; [exact B'|]. split; [rewrite <- El; exact Hf|]. intros E.
         destruct (Ht E) as (m' & l & H1 & H2 & H3 & H4). exists m', l, np. rewrite <- El. auto.
@@ -164,7 +164,7 @@ Qed.
 
 Lemma fresh_created s n t s' id :
   fresh_store s -> create_mailbox_row s n t = Some (s', id) ->
-  fresh_store s' /\ In (mkMbox id n t 1) (mboxes s').
+  fresh_store s' /\ In (mkMbox id n (next_validity s t) 1) (mboxes s').
 Proof.
   intros (Nd & Home & Below) C. destruct (create_row_shape _ _ _ _ _ C) as (_ & Eid & ->). simpl.
   assert (Hfr : forall m, In m (mboxes s) -> mb_id m < id).
@@ -188,16 +188,33 @@ Proof.
   - apply find_name_some in Fn. destruct Fn as [Hm _]. now apply tail_fresh_ok.
   - destruct (create_mailbox_row (us u) target t) as [[s' id]|] eqn:Cr.
     + destruct (fresh_created _ _ _ _ _ F Cr) as (F' & Hin).
-      change id with (mb_id (mkMbox id target t 1)). now apply tail_fresh_ok.
+      change id with (mb_id (mkMbox id target (next_validity (us u) t) 1)). now apply tail_fresh_ok.
     + exfalso. unfold create_mailbox_row in Cr. destruct target; [contradiction|]. rewrite Fn in Cr. discriminate.
 Qed.
 
+(** the initial store (five creations from the empty store; it does not reduce
+    for symbolic clock readings, so its properties are derived, not computed) *)
+Lemma create_or_same_links s n t : links (create_or_same s n t) = links s.
+Proof.
+  unfold create_or_same. destruct (create_mailbox_row s n t) as [[s' id]|] eqn:C; [|reflexivity].
+  destruct (create_row_shape _ _ _ _ _ C) as (_ & _ & ->). reflexivity.
+Qed.
+
+Lemma create_or_same_fresh s n t : fresh_store s -> fresh_store (create_or_same s n t).
+Proof.
+  intros F. unfold create_or_same. destruct (create_mailbox_row s n t) as [[s' id]|] eqn:C; [|exact F].
+  now destruct (fresh_created _ _ _ _ _ F C).
+Qed.
+
+Lemma init5_links t1 t2 t3 t4 t5 : links (init5 t1 t2 t3 t4 t5) = [].
+Proof. unfold init5. now rewrite !create_or_same_links. Qed.
+
 Lemma fresh_init5 t1 t2 t3 t4 t5 : fresh_store (init5 t1 t2 t3 t4 t5).
 Proof.
-  repeat split; simpl.
-  - repeat constructor; simpl; intuition discriminate.
+  unfold init5. repeat apply create_or_same_fresh. repeat split; simpl.
+  - constructor.
   - intros l [].
-  - intros m l _ [].
+  - intros m l [].
 Qed.
 
 Lemma Inv_fresh s : Inv s -> fresh_store s.
